@@ -68,12 +68,15 @@ def spaces(st, dr):
     return get
 
 
-def as_array(x, types):
-    """MatrixArray -> ndarray; PairTable -> dict (a,b)->value"""
+def as_array(x, types, sp=None):
+    """MatrixArray -> ndarray; PairTable -> dict (a,b)->value keyed by the SPEC's type names (the real labels may differ)"""
     if isinstance(x, MatrixArray):
+        if sp is not None and list(x.types) != [G.lab(sp, t) for t in types]:
+            _S['ctx'].violation('calc:result-types', 'returned MatrixArray carries types %r, the system has %r' % (list(x.types), [G.lab(sp, t) for t in types]))
         return np.asarray(x.data)
     if isinstance(x, PairTable):
-        return {(a, b): x[a, b] for a in types for b in types}
+        L_ = (lambda t: t) if sp is None else (lambda t: G.lab(sp, t))
+        return {(a, b): x[L_(a), L_(b)] for a in types for b in types}
     return x
 
 
@@ -168,7 +171,7 @@ def contract(name, p, kwargs, st, res):
     n = len(types)
     rho = np.array([sp['rho'][t] for t in types])
     ctx.hook('calc.' + name)
-    got = as_array(res, types)
+    got = as_array(res, types, sp)
     flag = ''.join('[%s=%s]' % kv for kv in sorted(kwargs.items()))
     _S['state'] = st
     if name in ('pair_correlation', 'structure_factor'):
@@ -394,6 +397,7 @@ def run_case(ctx, case):
         ctx.count('object', 'solved/rank%d' % n)
         return
     sp = hand_spec(rng, case)
+    sp['labels'] = G.choose_labels(rng, sp['types'])
     _S['spec'] = None
     with np.errstate(all='ignore'):
         p = G.build(sp).createPRISM()
@@ -402,8 +406,9 @@ def run_case(ctx, case):
     rk = R.grids(L, sp['dr'])[0]
     spH = Space.Fourier if case['spaceH'] == 'Fourier' else Space.Real
     spC = Space.Fourier if case['spaceC'] == 'Fourier' else Space.Real
-    p.totalCorr = randsym(rng, L, types, k if spH == Space.Fourier else rk, spH, 0.5)
-    p.directCorr = randsym(rng, L, types, k if spC == Space.Fourier else rk, spC, 0.3)
+    rtypes = [G.lab(sp, t) for t in types]
+    p.totalCorr = randsym(rng, L, rtypes, k if spH == Space.Fourier else rk, spH, 0.5)
+    p.directCorr = randsym(rng, L, rtypes, k if spC == Space.Fourier else rk, spC, 0.3)
     if case.get('spaceW') == 'Real':
         p.sys.domain.MatrixArray_to_real(p.omega)           # the user looked at omega(r)
     _S['spec'] = sp
@@ -413,13 +418,13 @@ def run_case(ctx, case):
     n = len(types)
     if n >= 2:
         ctx.hook('chi.linear_probe')
-        a, b = types[0], types[1]
-        Rv = (sp['d'][a] / sp['d'][b]) ** 3
+        a, b = rtypes[0], rtypes[1]
+        Rv = (sp['d'][types[0]] / sp['d'][types[1]]) ** 3
         vals = {}
         _S['on'] = False
         try:
             for which in ('aa', 'bb', 'ab', 'zero', 'aa2'):
-                C = MatrixArray(length=L, rank=n, space=Space.Fourier, types=types)
+                C = MatrixArray(length=L, rank=n, space=Space.Fourier, types=rtypes)
                 shape = np.exp(-k * 0.3)
                 if which == 'aa':
                     C[a, a] = shape
